@@ -565,10 +565,135 @@ impl Workload for Loads {
     }
 }
 
+/// Deep import graphs (tens of thousands of modules on one path): a chain, a chain whose last module is also imported
+/// by the first (the deep end is found before its importers), and a ring. Loaded on a thread with the stack of an
+/// ordinary spawned thread (2 MiB): the loader may not need stack in proportion to the depth of the graph.
+pub struct Deep {
+    pub n: usize,
+}
+
+impl Deep {
+    fn sources(&self, shape: u64) -> Sources {
+        let n = self.n;
+        let mut files = Vec::with_capacity(n);
+        for i in 0..n {
+            let mut t = String::new();
+            if i + 1 < n {
+                t.push_str(&format!("use \"m{}.oal\" as q;\n", i + 1));
+            } else if shape == 2 {
+                t.push_str("use \"m0.oal\" as q;\n");
+            }
+            if i == 0 && shape == 1 {
+                t.push_str(&format!("use \"m{}.oal\" as leaf;\n", n - 1));
+            }
+            t.push_str("let v = num;\n");
+            if i == 0 {
+                t.push_str("res / on get -> <v>;\n");
+            }
+            files.push((format!("m{i}.oal"), t));
+        }
+        Sources { files }
+    }
+}
+
+impl Workload for Deep {
+    fn len(&self) -> u64 {
+        3
+    }
+    fn case_json(&self, _seed: u64, idx: u64) -> Value {
+        let shape = ["chain", "chain-with-shared-leaf", "ring"][idx as usize % 3];
+        json!({"deep": {"modules": self.n, "shape": shape}})
+    }
+    fn run(&self, _seed: u64, idx: u64, st: &mut Stats) -> Vec<Violation> {
+        let shape = idx % 3;
+        let src = self.sources(shape);
+        let n = self.n;
+        // a stack overflow kills the worker process: the pool attributes the abort to this case
+        let h = std::thread::Builder::new().stack_size(2 * 1024 * 1024).spawn(move || {
+            let r = guard(|| {
+                // a loader with a hashed index of the texts (the shared in-memory loader looks texts up by scanning)
+                struct Indexed {
+                    texts: std::collections::HashMap<String, String>,
+                    loads: usize,
+                    compiles: usize,
+                }
+                impl oal_compiler::module::Loader<pipeline::LErr> for Indexed {
+                    fn is_valid(&mut self, loc: &oal_model::locator::Locator) -> bool {
+                        self.texts.contains_key(loc.url().as_str())
+                    }
+                    fn load(&mut self, loc: &oal_model::locator::Locator) -> Result<String, pipeline::LErr> {
+                        self.loads += 1;
+                        self.texts.get(loc.url().as_str()).cloned().ok_or_else(|| pipeline::LErr::Missing(loc.clone()))
+                    }
+                    fn parse(&mut self, loc: oal_model::locator::Locator, input: String) -> Result<oal_compiler::tree::Tree, pipeline::LErr> {
+                        let (tree, errs) = oal_syntax::parse::<_, oal_compiler::tree::Core>(loc.clone(), input);
+                        match tree {
+                            Some(t) if errs.is_empty() => Ok(t),
+                            _ => Err(pipeline::LErr::Syntax(loc, errs)),
+                        }
+                    }
+                    fn compile(&mut self, mods: &oal_compiler::module::ModuleSet, loc: &oal_model::locator::Locator) -> Result<(), pipeline::LErr> {
+                        self.compiles += 1;
+                        oal_compiler::compile::compile(mods, loc).map_err(pipeline::LErr::Compiler)
+                    }
+                }
+                let main = Sources::locator(&src.files[0].0);
+                let mut loader = Indexed {
+                    texts: src.files.iter().map(|(n, t)| (Sources::locator(n).url().to_string(), t.clone())).collect(),
+                    loads: 0,
+                    compiles: 0,
+                };
+                let res = oal_compiler::module::load(&mut loader, &main);
+                let (loads, compiles) = (loader.loads, loader.compiles);
+                (res.as_ref().err().map(|e| lerr_info(e).kind), loads, compiles)
+            });
+            r.map_err(|p| p.signature())
+        });
+        let r = match h.map(|h| h.join()) {
+            Ok(Ok(r)) => r,
+            _ => Err("the loading thread died".to_owned()),
+        };
+        st.inc("deep_graphs_loaded");
+        st.add("modules_in_deep_graphs", n as u64);
+        st.nontrivial(hash64(&(n, shape)));
+        let name = ["chain", "chain-with-shared-leaf", "ring"][shape as usize];
+        let problem = match r {
+            Err(sig) => Some(format!("panic {sig}")),
+            Ok((None, loads, compiles)) if shape < 2 => (loads != n || compiles != n).then(|| format!("{loads} loads and {compiles} compilations of {n} modules")),
+            Ok((None, ..)) => Some("a ring of imports was accepted".to_owned()),
+            Ok((Some(k), ..)) if shape == 2 => (k != "CycleDetected").then(|| format!("a ring of imports reported as {k}")),
+            Ok((Some(k), ..)) => Some(format!("rejected: {k}")),
+        };
+        match problem {
+            None => vec![],
+            Some(p) => vec![Violation::new(
+                "a deep import graph is not loaded as the property says",
+                json!({"signature": format!("C10 deep {name}: {}", p.split(':').next().unwrap_or("")), "problem": p, "modules": n}),
+            )],
+        }
+    }
+    fn run_json(&self, case: &Value, st: &mut Stats) -> Vec<Violation> {
+        let shape = match case["deep"]["shape"].as_str() {
+            Some("chain-with-shared-leaf") => 1,
+            Some("ring") => 2,
+            _ => 0,
+        };
+        Deep { n: case["deep"]["modules"].as_u64().unwrap_or(1000) as usize }.run(1, shape, st)
+    }
+    fn chunk(&self) -> u64 {
+        1
+    }
+    fn case_timeout_s(&self) -> u64 {
+        300
+    }
+}
+
 pub fn run(ctx: &Ctx) -> i32 {
     let mut acc = Acc::new(ctx);
     let wl = Loads::new(ctx.quick());
     acc.pool(&wl, "c10", true);
+    let deep = Deep { n: if ctx.quick() { 60_000 } else { 150_000 } };
+    acc.pool(&deep, "c10deep", true);
     // language-server sessions (edit histories of C15's workload): every error the library locates must be
     // published for the document of its module with exactly the range of its span in the client's text
     let hs = super::c15::Histories {
